@@ -710,13 +710,20 @@ def rule_cycle_presence(prog, fixture=False):
     return r
 
 
+def _shared_surface_format(prog):
+    from . import c13
+    r = c13.rule_format_of_own_surface(prog)
+    r.rule = "R-C02-9"      # each surface's catalogue is read as the variant identified on that surface
+    return r
+
+
 def run(ctx):
     from . import c01
     prog = ctx.prog("dfs", "N")
     return [rule_entry_fields(prog), rule_fragment_header(prog), rule_title(prog), rule_sign_extend(prog),
             rule_crc(prog), rule_report_provenance(prog), rule_sign_extension_use(prog),
             rule_current_directory_tests(prog), c01.rule_opus_catalogue_slot(prog, rule_id="R-C02-6"),
-            rule_cycle_presence(prog), _shared_enumeration(prog)]
+            rule_cycle_presence(prog), _shared_enumeration(prog), _shared_surface_format(prog)]
 
 
 def _shared_enumeration(prog):
